@@ -188,7 +188,16 @@ impl Method for PhoneticMethod {
                 return Suggestion::empty();
             }
 
-            self.create_suggestion(data, config)
+            let suggestion = self.create_suggestion(data, config);
+
+            // What is left may produce nothing at all (e.g. a lone escape character
+            // when the suggestion list is off). An empty suggestion tells the frontend
+            // that the word is gone, so it has to be gone here too.
+            if suggestion.is_empty() {
+                self.buffer.clear();
+            }
+
+            suggestion
         } else {
             Suggestion::empty()
         }
